@@ -116,10 +116,26 @@ def evaluate(ctx, rng, tier, focus, budget, broken):
                          "ops": [o], "expected": e, "observed": a, "key": o.replace(" ", ":")})
             if len(viol) >= 20:
                 break
+    # history independence: a valid string parses to its value whatever was parsed before it in the same process
+    # (texts that overflow 64 bits, non-numbers, empty strings: anything that leaves state behind in libc)
+    upset = [b"10000000000000000", b"ffffffffffffffffffffffffffffffff", b"zz", b"", b"-1", b"0x", b"1e999"]
+    nseq = 0
+    for u in upset:
+        seq = ["fromstr " + enc(list(u))]
+        want = [None]
+        for h in rng.sample(vals, min(12, len(vals))):
+            seq.append("fromstr " + enc(list(format(h, "x").encode()))); want.append("ok " + format(h, "x"))
+        got = ctx.c(seq, tag="eval_seq")
+        nseq += 1
+        for j in range(1, len(seq)):
+            if got[j] != want[j]:
+                viol.append({"what": "stringToH3 of a valid string depends on what was parsed before it", "ops": [seq[0], seq[j]],
+                             "expected": want[j], "observed": got[j], "key": "history:" + seq[j].replace(" ", ":")})
+                break
     return {"evaluations": len(ops), "violations": viol,
-            "coverage": {"values": len(vals), "rejected_strings": nrej},
+            "coverage": {"values": len(vals), "rejected_strings": nrej, "history_sequences": nseq},
             "samples": [{"op": ops[i], "c_answer": out[i]} for i in (1, len(ops) // 2, len(ops) - 1)]}
 
 
 def replay_verdict(rp, out):
-    return out[0] != rp["expected"]
+    return out[-1] != rp["expected"]
